@@ -291,3 +291,129 @@ Section ListLevel.
   Proof. intros Lv Ld Hi Hr0. rewrite gconv_pointwise by assumption. cbn [fst].
     rewrite (nth_map2 _ _ _ _ 0 0) by lia. rewrite Hr0. apply gval_at0. Qed.
 End ListLevel.
+
+(* ---------- uncertainties (C06) ---------- *)
+Section Unc.
+  Variable k : kw R.
+  Let b := bcoh k. Let t := btot k. Let p := rho k.
+
+  Definition dtoS (X : rfun) (q : R) : R := match X with rS => 1 | rF => / q | rFK => / b | rDCS => / b end.
+  Definition dfromS (Y : rfun) (q : R) : R := match Y with rS => 1 | rF => q | rFK => b | rDCS => b end.
+  (* d (rspec X Y q v) / d v *)
+  Definition rderiv (X Y : rfun) (q : R) : R := dfromS Y q * dtoS X q.
+  Definition dtog (X : gfun) (r : R) : R := match X with gg => 1 | gG => / (4 * PI * p * r) | gGK => / b end.
+  Definition dfromg (Y : gfun) (r : R) : R := match Y with gg => 1 | gG => 4 * PI * p * r | gGK => b end.
+  Definition gderiv (X Y : gfun) (r : R) : R := dfromg Y r * dtog X r.
+
+  (* the conversions are affine in the function value with slope rderiv: that
+     is what "derivative" means in the statements below *)
+  Lemma rspec_affine X Y q v h : 0 < q -> b <> 0 -> rspec k X Y q (v + h) - rspec k X Y q v = rderiv X Y q * h.
+  Proof. intros Hq Hb. unfold rspec, rderiv. destruct X, Y; cbn; fold b t; field; lra. Qed.
+  Lemma gspec_affine X Y r v h : 0 < r -> 0 < p -> b <> 0 -> gspec k X Y r (v + h) - gspec k X Y r v = gderiv X Y r * h.
+  Proof. intros Hr Hp Hb. pose proof PI_RGT_0. unfold gspec, gderiv. destruct X, Y; cbn; fold b t p; field; repeat split; lra. Qed.
+
+  Lemma rderiv_pos X Y q : 0 < q -> 0 < b -> 0 < rderiv X Y q.
+  Proof. intros Hq Hb. unfold rderiv. apply Rmult_lt_0_compat; [destruct Y|destruct X]; cbn; try lra;
+    apply Rinv_0_lt_compat; assumption. Qed.
+  Lemma gderiv_pos X Y r : 0 < r -> 0 < p -> 0 < b -> 0 < gderiv X Y r.
+  Proof. intros Hr Hp Hb. pose proof (fourpirho_pos k r Hr Hp) as H4. fold p in H4. unfold gderiv.
+    apply Rmult_lt_0_compat; [destruct Y|destruct X]; cbn; try lra; apply Rinv_0_lt_compat; assumption. Qed.
+
+  Lemma rerr_deriv X Y q e : 0 < q -> 0 < b -> rerr k X Y q e = Rabs (rderiv X Y q) * e.
+  Proof. intros Hq Hb. rewrite Rabs_pos_eq by (left; apply rderiv_pos; assumption). unfold rderiv.
+    destruct X, Y; cbn [rerr dtoS dfromS]; unfold eF_to_S, eF_to_FK, eS_to_F, eFK_to_F;
+    rewrite ?sdiv_pos by assumption; fold b; try reflexivity; field; lra. Qed.
+  Lemma gerr_deriv X Y r e : 0 < r -> 0 < p -> 0 < b -> gerr k X Y r e = Rabs (gderiv X Y r) * e.
+  Proof. intros Hr Hp Hb. pose proof PI_RGT_0 as Hpi. pose proof (fourpirho_pos k r Hr Hp) as H4.
+    rewrite Rabs_pos_eq by (left; apply gderiv_pos; assumption). unfold gderiv.
+    destruct X, Y; cbn [gerr dtog dfromg]; unfold eG_to_GK, eG_to_g, eGK_to_G, eg_to_G;
+    rewrite ?sdiv_pos by (fold p; first [assumption | nra]); fold b p; try reflexivity;
+    field; repeat split; lra. Qed.
+
+  (* no uncertainty in -> zero out, for every abscissa (also x <= 0) *)
+  Lemma rerr_zero X Y q : rerr k X Y q 0 = 0.
+  Proof. destruct X, Y; cbn [rerr]; unfold eF_to_S, eF_to_FK, eS_to_F, eFK_to_F, sdiv;
+    repeat match goal with |- context [Rltb ?a ?c] => destruct (Rltb a c) end; fold b; unfold Rdiv; ring. Qed.
+  Lemma gerr_zero X Y r : gerr k X Y r 0 = 0.
+  Proof. destruct X, Y; cbn [gerr]; unfold eG_to_GK, eG_to_g, eGK_to_G, eg_to_G, sdiv;
+    repeat match goal with |- context [Rltb ?a ?c] => destruct (Rltb a c) end; fold b p; unfold Rdiv; ring. Qed.
+
+  Lemma rderiv_inv X Y q : 0 < q -> b <> 0 -> rderiv Y X q * rderiv X Y q = 1.
+  Proof. intros. unfold rderiv. destruct X, Y; cbn; field; lra. Qed.
+  Lemma gderiv_inv X Y r : 0 < r -> 0 < p -> b <> 0 -> gderiv Y X r * gderiv X Y r = 1.
+  Proof. intros. pose proof PI_RGT_0. unfold gderiv. destruct X, Y; cbn; field; repeat split; lra. Qed.
+End Unc.
+
+Section UncList.
+  Variable k : kw R.
+
+  Theorem rconv_unc_first_order X Y q v e : allpos q -> 0 < bcoh k -> length v = length q -> length e = length q ->
+    snd (rconv X Y q v (Some e) k) = map2 (fun q e => Rabs (rderiv k X Y q) * e) q e.
+  Proof. intros Hq Hb Lv Le. rewrite rconv_pointwise by (first [assumption | apply dok_some; assumption]). cbn [snd dflt_zeros].
+    apply Forall_map2_ext with (P := fun x => 0 < x); auto. intros; apply rerr_deriv; assumption. Qed.
+
+  Theorem rconv_unc_value_independent X Y q v v' d : length v = length q -> length v' = length q -> dok d (length q) ->
+    snd (rconv X Y q v d k) = snd (rconv X Y q v' d k).
+  Proof. intros Lv Lv' Ld. rewrite !rconv_pointwise by assumption. cbn [snd].
+    destruct d as [e|]; cbn [dflt_zeros]; [reflexivity|]. unfold zeros_like.
+    rewrite !map2_map_r. clear Ld. revert v v' Lv Lv'. induction q as [|x q IH]; intros [|a v] [|a' v'] L L'; cbn in *; try lia; auto.
+    f_equal. apply IH; lia. Qed.
+
+  Theorem rconv_unc_none_zero X Y q v : length v = length q ->
+    snd (rconv X Y q v None k) = map (fun _ => 0) q.
+  Proof. intros Lv. rewrite rconv_pointwise by (first [assumption | apply dok_none]). cbn [snd dflt_zeros]. unfold zeros_like.
+    rewrite map2_map_r. revert v Lv. induction q as [|x q IH]; intros [|a v] L; cbn in *; try lia; auto.
+    f_equal; [apply rerr_zero | apply IH; lia]. Qed.
+
+  Theorem rconv_unc_nonneg X Y q v e : allpos q -> 0 < bcoh k -> length v = length q -> length e = length q ->
+    Forall (fun x => 0 <= x) e -> Forall (fun x => 0 <= x) (snd (rconv X Y q v (Some e) k)).
+  Proof. intros Hq Hb Lv Le He. rewrite rconv_unc_first_order by assumption.
+    clear Lv v. revert e Le He. induction Hq as [|x q Hx Hq IH]; intros [|a e] Le He; cbn in *; try lia; constructor.
+    - inversion He; subst. apply Rmult_le_pos; [apply Rabs_pos | assumption].
+    - inversion He; subst. apply IH; [lia | assumption]. Qed.
+
+  Theorem rconv_unc_roundtrip X Y q v v' e : allpos q -> 0 < bcoh k -> length v = length q -> length v' = length q -> length e = length q ->
+    snd (rconv Y X q v' (Some (snd (rconv X Y q v (Some e) k))) k) = e.
+  Proof. intros Hq Hb Lv Lv' Le.
+    rewrite (rconv_unc_first_order X Y) by assumption.
+    rewrite rconv_unc_first_order; try assumption.
+    2:{ rewrite map2_length, Le. apply Nat.min_id. }
+    apply map2_compose_id with (P := fun x => 0 < x); auto.
+    intros x y Hx. rewrite !Rabs_pos_eq by (left; apply rderiv_pos; assumption).
+    rewrite <- Rmult_assoc, rderiv_inv by lra. ring. Qed.
+
+  Theorem gconv_unc_first_order X Y r v e : allpos r -> 0 < rho k -> 0 < bcoh k -> length v = length r -> length e = length r ->
+    snd (gconv X Y r v (Some e) k) = map2 (fun r e => Rabs (gderiv k X Y r) * e) r e.
+  Proof. intros Hr Hp Hb Lv Le. rewrite gconv_pointwise by (first [assumption | apply dok_some; assumption]). cbn [snd dflt_zeros].
+    apply Forall_map2_ext with (P := fun x => 0 < x); auto. intros; apply gerr_deriv; assumption. Qed.
+
+  Theorem gconv_unc_value_independent X Y r v v' d : length v = length r -> length v' = length r -> dok d (length r) ->
+    snd (gconv X Y r v d k) = snd (gconv X Y r v' d k).
+  Proof. intros Lv Lv' Ld. rewrite !gconv_pointwise by assumption. cbn [snd].
+    destruct d as [e|]; cbn [dflt_zeros]; [reflexivity|]. unfold zeros_like.
+    rewrite !map2_map_r. clear Ld. revert v v' Lv Lv'. induction r as [|x r IH]; intros [|a v] [|a' v'] L L'; cbn in *; try lia; auto.
+    f_equal. apply IH; lia. Qed.
+
+  Theorem gconv_unc_none_zero X Y r v : length v = length r ->
+    snd (gconv X Y r v None k) = map (fun _ => 0) r.
+  Proof. intros Lv. rewrite gconv_pointwise by (first [assumption | apply dok_none]). cbn [snd dflt_zeros]. unfold zeros_like.
+    rewrite map2_map_r. revert v Lv. induction r as [|x r IH]; intros [|a v] L; cbn in *; try lia; auto.
+    f_equal; [apply gerr_zero | apply IH; lia]. Qed.
+
+  Theorem gconv_unc_nonneg X Y r v e : allpos r -> 0 < rho k -> 0 < bcoh k -> length v = length r -> length e = length r ->
+    Forall (fun x => 0 <= x) e -> Forall (fun x => 0 <= x) (snd (gconv X Y r v (Some e) k)).
+  Proof. intros Hr Hp Hb Lv Le He. rewrite gconv_unc_first_order by assumption.
+    clear Lv v. revert e Le He. induction Hr as [|x r Hx Hr IH]; intros [|a e] Le He; cbn in *; try lia; constructor.
+    - inversion He; subst. apply Rmult_le_pos; [apply Rabs_pos | assumption].
+    - inversion He; subst. apply IH; [lia | assumption]. Qed.
+
+  Theorem gconv_unc_roundtrip X Y r v v' e : allpos r -> 0 < rho k -> 0 < bcoh k -> length v = length r -> length v' = length r -> length e = length r ->
+    snd (gconv Y X r v' (Some (snd (gconv X Y r v (Some e) k))) k) = e.
+  Proof. intros Hr Hp Hb Lv Lv' Le.
+    rewrite (gconv_unc_first_order X Y) by assumption.
+    rewrite gconv_unc_first_order; try assumption.
+    2:{ rewrite map2_length, Le. apply Nat.min_id. }
+    apply map2_compose_id with (P := fun x => 0 < x); auto.
+    intros x y Hx. rewrite !Rabs_pos_eq by (left; apply gderiv_pos; assumption).
+    rewrite <- Rmult_assoc, gderiv_inv by lra. ring. Qed.
+End UncList.
